@@ -977,7 +977,8 @@ def replace_doctype(data: bytes) -> tuple[str | None, bytes, dict[str, str]]:
                 + b">\n<!ENTITY ".join(safe_entities)
                 + b">\n]>"
             )
-    data = RE_DOCTYPE_PATTERN.sub(replacement, head) + data
+    # (a function, so that backslashes in entity values are not taken as escapes)
+    data = RE_DOCTYPE_PATTERN.sub(lambda match: replacement, head) + data
 
     # Precompute the safe entities for the loose parser.
     entities = {
